@@ -200,6 +200,9 @@ def finding_key(site, family):
     fk = enclosing_fn(site)
     file_ = fk.split(":")[0]
     # (repository files are NOT counted as valid input: many are error tests or need sibling files when analysed alone)
+    if file_ == "dora-parser/src/parser.rs":
+        # parser guards: one finding per (guard, grammar routine that tripped it)
+        return "oracle:panic:" + fk
     if family == "grammar:clean" or file_ in PROVED_TOTAL:
         if file_ == "dora-frontend/src/generator/bytecode.rs":
             # the BytecodeBuilder::emit_* methods all assert the register types of their operands; the generated programs
